@@ -903,6 +903,7 @@ pub fn judge(focus: Focus, bytes: &[u8], v: &Verdict, ops: &[String], wellformed
                 }
             }
         }
+        Verdict::Died { what } if what.starts_with("harness-panic:") => return Err(Failure::new(what.clone(), format!("harness bug: worker {}", what)).with(detail())),
         Verdict::Died { what } => match focus {
             Focus::C04 => return Err(Failure::new(format!("load-died:{}", sig_word(what)), format!("worker died during load: {}", what)).with(detail())),
             Focus::C12 if what.contains("alloc-failure") => return Err(Failure::new("mem-bound:alloc-failure-abort", format!("allocation failure during load: {}", what)).with(detail())),
@@ -963,6 +964,7 @@ pub fn judge(focus: Focus, bytes: &[u8], v: &Verdict, ops: &[String], wellformed
                     UseV::Panic { loc, msg } if loc.starts_with("harness/") => return Err(Failure::new(format!("harness-panic:{}", loc), format!("harness bug: {}", msg)).with(detail())),
                     UseV::Panic { loc, msg } => return Err(Failure::new(format!("use-panic:{}", loc), format!("file loaded, then an accessor panicked at {}: {}", loc, msg)).with(detail())),
                     UseV::Dims(m) => return Err(Failure::new("use-dims", format!("file loaded, then: {}", m)).with(detail())),
+                    UseV::Died { what } if what.starts_with("harness-panic:") => return Err(Failure::new(what.clone(), format!("harness bug: worker {}", what)).with(detail())),
                     UseV::Died { what } => return Err(Failure::new(format!("use-died:{}", sig_word(what)), format!("file loaded, then the process died while calling accessors: {}", what)).with(detail())),
                 }
             }
